@@ -50,7 +50,7 @@ theorem potW_congr (ms0 : List Macro) {a b : St} (h1 : a.ctx = b.ctx) (h2 : a.ma
 
 /-- **inside the replacement of a macro named in an argument, the loop gets back to the text**: if
 it completes from every state in which it has (`hcont`), it completes -/
-theorem inner_total (ms0 : List Macro) (hTb : TblOK ms0) : ∀ (m : Nat) (e : EF) (st : St),
+theorem inner_total (ms0 : List Macro) (hTb : TblOKS ms0) : ∀ (m : Nat) (e : EF) (st : St),
     W (tblF ms0) (liveNames st.ctx) e.t + potW ms0 st ≤ m →
     e.depth = 0 → (e.m.params.getD e.i default).ftok = true →
     GoodP ms0 st → liveNames st.ctx ≠ [] → FlatP ms0 e.t →
@@ -240,7 +240,7 @@ def LoopTot (ms0 : List Macro) (L rest : List Tok) : Prop :=
     ∃ n sF, exec n (.efLoop e) st = .ok sF
 
 /-- `expand` completes on an invocation in the text when the argument loop completes on its arguments -/
-theorem call_total (ms0 : List Macro) (hTb : TblOK ms0) (s1 : St) (T lp : Tok) (r' : List Tok) (F : Macro)
+theorem call_total (ms0 : List Macro) (hTb : TblOKS ms0) (s1 : St) (T lp : Tok) (r' : List Tok) (F : Macro)
     (args : List (List Tok)) (rest : List Tok) (g : GoodP ms0 s1) (hctx : s1.ctx = []) (hraw : s1.raw = lp :: r')
     (h1 : T.kind = .TIDENT) (h2 : T.hide = false) (h3 : macroget ms0 (T.lit.getD []) = some F) (h4 : F.func = true)
     (h5 : lp.kind = .TLPAREN) (h6 : collect F.params 0 0 [] [] r' = .ok (args, rest)) (hok : ArgsOK ms0 r' rest)
@@ -249,7 +249,7 @@ theorem call_total (ms0 : List Macro) (hTb : TblOK ms0) (s1 : St) (T lp : Tok) (
   have hsf0 := hTb.func F hmem0.1 h4
   obtain ⟨F', hF', hs⟩ := macroget_stat_some g.stat.symm h3
   have hse := stat_eq hs
-  have hsf : SimpleFun F' := simpleFun_of_stat hs hsf0
+  have hsf : SimpleFunS F' := simpleFunS_of_stat hs hsf0
   have hmem := macroget_mem hF'
   have hFh : F'.hide = false := by
     cases hh : F'.hide with
@@ -285,7 +285,7 @@ theorem call_total (ms0 : List Macro) (hTb : TblOK ms0) (s1 : St) (T lp : Tok) (
   exact ⟨_, rfl⟩
 
 /-- **the argument loop completes** on the text of an invocation of the class -/
-theorem loopTot_of_argsOK (ms0 : List Macro) (hTb : TblOK ms0) {L rest : List Tok} (h : ArgsOK ms0 L rest) :
+theorem loopTot_of_argsOK (ms0 : List Macro) (hTb : TblOKS ms0) {L rest : List Tok} (h : ArgsOK ms0 L rest) :
     LoopTot ms0 L rest := by
   induction h with
   | done rest =>
@@ -293,7 +293,7 @@ theorem loopTot_of_argsOK (ms0 : List Macro) (hTb : TblOK ms0) {L rest : List To
     obtain ⟨cur, done, args, hc⟩ := hco
     have := collect_rest_lt _ _ _ _ _ _ _ _ hc
     omega
-  | tok t L' rest ht more ih =>
+  | tok t L' rest ht _ more ih =>
     intro e st hnv hd0 hi g hctx hL hco
     have het : e.t = t := by cases hL; rfl
     have hsr : st.raw = L' := by cases hL; rfl
@@ -385,7 +385,7 @@ theorem loopTot_of_argsOK (ms0 : List Macro) (hTb : TblOK ms0) {L rest : List To
         refine skip_one ms0 e st g hctx hd0 hne hc hpf (by rw [hsr]; exact hhead) (by rw [hsr]; exact hrne) ?_
         intro st2 g2 hc2 hr2
         exact ih _ st2 hnv hdep hi g2 hc2 (by rw [← hsr]; exact hr2) ⟨_, _, _, hcol'⟩
-  | call G lp r'' FG argsG rest'' rest c1 c2 c3 c4 c5 c5' c6 c7 c8 more ih1 ih2 =>
+  | call G lp r'' FG argsG rest'' rest c1 c2 c3 c4 c5 c5' c6 c7 c8 _ more ih1 ih2 =>
     intro e st hnv hd0 hi g hctx hL hco
     have het : e.t = G := (List.cons.inj hL).1.symm
     have hsr : st.raw = lp :: r'' := (List.cons.inj hL).2.symm
